@@ -433,3 +433,32 @@ Proof.
     rewrite (not_file_scheme _ Hk). apply parse_relative_ok; [exact W | apply not_file_scheme; exact Hk | apply byte_eqb_nnth; exact Eb].
 Qed.
 End Rel.
+
+(* ---------- wf_b alone is not enough: a special base that is cannot-be-a-base ---------- *)
+(* the record "http:x" (scheme_end 4, everything else 5, no host) satisfies wf_b - the parser never
+   produces it: special URLs always get an authority - and joining "http:y" with it reaches the debug
+   assertion of parse_with_scheme (debug builds) or pop_path's unwrap (release builds), for any host
+   functions *)
+Definition cbb_special_base : url := mkUrl [104; 116; 116; 112; 58; 120] 4 5 5 5 HI_None None 5 None None.
+Definition cbb_special_ref : list N := [104; 116; 116; 112; 58; 121].
+
+Lemma cbb_special_witness :
+  usv_list cbb_special_ref /\ wf_b cbb_special_base = true
+  /\ file_involved (Some cbb_special_base) cbb_special_ref = false /\ base_ok cbb_special_base = false
+  /\ forall dbg hp hpo hd ovr, parse_url dbg hp hpo hd ovr (Some cbb_special_base) cbb_special_ref = PPanic.
+Proof.
+  split; [repeat constructor; unfold is_usv; lia|].
+  split; [vm_compute; reflexivity|]. split; [vm_compute; reflexivity|]. split; [vm_compute; reflexivity|].
+  intros dbg hp hpo hd ovr. destruct dbg; vm_compute; reflexivity.
+Qed.
+
+Lemma parse_statement_false :
+  ~ (forall dbg hp hpo hd ovr base input, usv_list input ->
+       (match base with Some b => wf_b b = true | None => True end) ->
+       file_involved base input = false ->
+       parse_url dbg hp hpo hd ovr base input <> PPanic).
+Proof.
+  intros H. destruct cbb_special_witness as (Hu & W & Hf & _ & Hp).
+  apply (H true (fun _ => Err EmptyHost) (fun _ => Err EmptyHost) (fun _ => []) None (Some cbb_special_base) cbb_special_ref Hu W Hf).
+  apply Hp.
+Qed.
